@@ -250,12 +250,15 @@ func (c *Ctx) exportSelfCheck(key string) {
 	p := c.P
 	ex := "litefs.(*DB).Export"
 	acc := "(9223372036854775808 | phi(@@ltx.ChecksumPage(@@)@@))"
+	// the lock page number is ltx.LockPgno(pageSize), or 0 (no page) while the page size is unknown
+	lp := `(ltx\.LockPgno\(p0\.pageSize\)|phi\((0\|ltx\.LockPgno\(p0\.pageSize\)|ltx\.LockPgno\(p0\.pageSize\)\|0)\))`
+	lockPg := G(`\(`+lp+` == phi\(.*\)\)|\(phi\(.*\) == `+lp+`\)`, false)
 	c.Guarded(key, ex, p.SuccessReturn, gs(
 		G(pat("("+acc+" == litefs.(*DB).Pos(p0).PostApplyChecksum)")+"|"+pat("(litefs.(*DB).Pos(p0).PostApplyChecksum == "+acc+")"), true),
 		GP("ltx.(Pos).IsZero(litefs.(*DB).Pos(p0))", true),
 	), 1, "an export succeeds only if the checksum accumulated over the pages it wrote equals the captured position's checksum (or the position is zero)", "an export taken over a hot journal, or racing a writer the lock protocol failed to exclude, would hand out uncommitted pages as the image of the reported position")
-	c.Guarded(key+"/lock-page-excluded", ex, p.PlainCalls("ltx.ChecksumPage"), gs(G(pat("(ltx.LockPgno(p0.pageSize) == phi(@@))")+"|"+pat("(phi(@@) == ltx.LockPgno(p0.pageSize))"), false)), 1, "the lock page does not enter the accumulated checksum", "")
-	c.OnlyGuards(key+"/every-other-page", ex, p.PlainCalls("ltx.ChecksumPage"), gs(G(pat("(ltx.LockPgno(p0.pageSize) == phi(@@))")+"|"+pat("(phi(@@) == ltx.LockPgno(p0.pageSize))"), false), G(`.*`, true), G(`.*`, false)), 1, "every other page written enters it", "")
+	c.Guarded(key+"/lock-page-excluded", ex, p.PlainCalls("ltx.ChecksumPage"), gs(lockPg), 1, "the lock page does not enter the accumulated checksum", "")
+	c.OnlyGuards(key+"/every-other-page", ex, p.PlainCalls("ltx.ChecksumPage"), gs(lockPg, G(`.*`, true), G(`.*`, false)), 1, "every other page written enters it", "")
 	for _, in := range Instrs(c.F(ex), p.PlainCalls("ltx.ChecksumPage")) {
 		c.Expect(key+"/page-written", c.argR(in, 0)+" | "+c.argR(in, 1), pat("phi(@@) | make([]byte, p0.pageSize)"), "the checksum is taken of the page number and buffer just written", "")
 	}
